@@ -451,7 +451,42 @@ class Interp:
             self.exec_block(st.finalbody, env, func, depth)
         elif t is ast.FunctionDef:
             env[st.name] = ("closure", func.nested.get(st.name) or Func(st.name, st, func.module, func.cls, func), env)
-        elif isinstance(st, (ast.Import, ast.ImportFrom, ast.Global, ast.Nonlocal)):
+        elif t is ast.ImportFrom:
+            # function-local import of repository names (used to dodge circular imports)
+            modname = st.module or ""
+            if modname.startswith("inscripta.biocantor"):
+                short = modname[len("inscripta.biocantor."):] if len(modname) > len("inscripta.biocantor") else "__init__"
+                for a in st.names:
+                    bound = False
+                    for cand in (short, short + "." + a.name):
+                        m2 = self.repo.modules.get(cand)
+                        if m2 is None:
+                            continue
+                        if a.name in m2.funcs:
+                            env[a.asname or a.name] = ("bound", m2.funcs[a.name], None)
+                            bound = True
+                        elif a.name in m2.classes:
+                            env[a.asname or a.name] = ClassTok(a.name)
+                            bound = True
+                        if bound:
+                            break
+                    if not bound and self.repo.has_cls(a.name):
+                        env[a.asname or a.name] = ClassTok(a.name)
+            return
+        elif t is ast.Delete:
+            for tg in st.targets:
+                if isinstance(tg, ast.Subscript):
+                    o = self.eval(tg.value, env, func, depth)
+                    k = self.eval(tg.slice, env, func, depth)
+                    try:
+                        del o[k]
+                    except KeyError:
+                        raise Raised("KeyError", repr(k))
+                elif isinstance(tg, ast.Name):
+                    env.pop(tg.id, None)
+                else:
+                    raise Uninterpretable("del target")
+        elif isinstance(st, (ast.Import, ast.Global, ast.Nonlocal)):
             return
         else:
             raise Uninterpretable(f"statement {type(st).__name__} in {func.qual}")
@@ -678,20 +713,9 @@ class Interp:
                     and mod.imports[n.id][1] in ("islice", "chain", "reduce", "count", "zip_longest"):
                 return ("builtin", mod.imports[n.id][1])
             if mod is not None and n.id in mod.imports:
-                imod, iname = mod.imports[n.id]
-                short = imod[len("inscripta.biocantor."):] if imod.startswith("inscripta.biocantor.") else None
-                if short is not None and iname:
-                    for cand in (short, short + "." + iname):
-                        if cand in self.repo.modules:
-                            m2 = self.repo.modules[cand]
-                            if iname in m2.funcs:
-                                return ("bound", m2.funcs[iname], None)
-                            if iname in m2.assigns:
-                                return self.eval(m2.assigns[iname], {}, Func("<mod>", ast.parse("def f(): pass").body[0], m2), depth)
-                    # re-exported names: search all modules
-                    for m2 in self.repo.modules.values():
-                        if iname in m2.funcs:
-                            return ("bound", m2.funcs[iname], None)
+                res = self.resolve_import(mod, n.id, func, depth, 0)
+                if res is not None:
+                    return res
             if n.id in BUILTIN_EXC or n.id in ("len", "min", "max", "abs", "type", "isinstance", "str", "int", "sum",
                                                "any", "all", "sorted", "reversed", "list", "tuple", "zip", "range",
                                                "enumerate", "set", "bool", "iter", "next", "repr", "dict", "frozenset", "hash", "slice",
@@ -838,6 +862,30 @@ class Interp:
         if t is ast.Starred:
             raise Uninterpretable("starred")
         raise Uninterpretable(f"expression {type(n).__name__}")
+
+    def resolve_import(self, mod, name, func, depth, hops):
+        """value of a name imported into `mod` from another repository module (re-exports are followed)"""
+        if hops > 6 or name not in mod.imports:
+            return None
+        imod, iname = mod.imports[name]
+        if not imod.startswith("inscripta.biocantor") or not iname:
+            return None
+        short = imod[len("inscripta.biocantor."):] if len(imod) > len("inscripta.biocantor") else "__init__"
+        for cand in (short, short + "." + iname):
+            m2 = self.repo.modules.get(cand)
+            if m2 is None:
+                continue
+            if iname in m2.funcs:
+                return ("bound", m2.funcs[iname], None)
+            if iname in m2.classes:
+                return ClassTok(iname)
+            if iname in m2.assigns:
+                return self.eval(m2.assigns[iname], {}, Func("<mod>", ast.parse("def f(): pass").body[0], m2), depth)
+            if iname in m2.imports:
+                res = self.resolve_import(m2, iname, func, depth, hops + 1)
+                if res is not None:
+                    return res
+        return None
 
     def _dedupe(self, items, depth):
         out = SetVal()
@@ -1117,7 +1165,7 @@ class Interp:
                 fields = []
                 for k in reversed(self.repo.mro(c)):
                     for nm in k.order:
-                        if nm in k.annots and nm not in fields:
+                        if nm in k.annots and nm not in fields and "ClassVar" not in ast.unparse(k.annots[nm]):
                             fields.append(nm)
                 if len(args) > len(fields):
                     raise Raised("TypeError", "too many arguments")
@@ -1128,7 +1176,18 @@ class Interp:
                         d = self.repo.lookup_attr(c, nm)
                         if d is None:
                             raise Raised("TypeError", f"missing argument {nm}")
-                        vals[nm] = self.eval(d, {}, func, depth)
+                        if isinstance(d, ast.Call) and dotted(d.func) == "field":
+                            fac = [k.value for k in d.keywords if k.arg == "default_factory"]
+                            dfl = [k.value for k in d.keywords if k.arg == "default"]
+                            if fac:
+                                vals[nm] = [] if ast.unparse(fac[0]) == "list" else {} if ast.unparse(fac[0]) == "dict" else None
+                            elif dfl:
+                                vals[nm] = self.eval(dfl[0], {}, func, depth)
+                            else:
+                                raise Raised("TypeError", f"missing argument {nm}")
+                        else:
+                            owner = [k for k in self.repo.mro(c) if nm in k.attrs][0]
+                            vals[nm] = self.eval(d, {}, Func("<cls>", ast.parse("def f(): pass").body[0], owner.module), depth)
                     o.fields[nm] = vals[nm]
                 o.fields["__dataclass_fields__"] = tuple(fields)
             return o
